@@ -64,8 +64,7 @@ Definition c07_check (c : c07case) : bool :=
           && set_eq (map ext_name (o_exts o)) exts
           && String.eqb (ptype_name (d_ptype d)) pt
           && Bool.eqb (d_repeated d) rep
-          (* observed on the LINKED descriptor: a repeated field never reports proto3_optional *)
-          && Bool.eqb (d_opt3 d && negb (d_repeated d)) opt3
+          && Bool.eqb (d_opt3 d) opt3
       | VOk, None => false
       | VConvErr, _ => Nat.eqb (iso_nerr p) nerrs && Bool.eqb errors_positioned allpos
       | _, _ => true
